@@ -199,8 +199,9 @@ def gen_case(seed: int, prop: str, tier: str, kind: str | None = None) -> dict:
     case["cops"] = cops
     case["share_obj"] = rng.random() < 0.5
     case["reopen"] = rng.random() < 0.3
-    if rng.random() < 0.1 and cops and not case.get("fault"):
-        case["eio"] = {str(rng.randrange(len(cops))): rng.choice([1, 1, 2, 3, 5, 8]) for _ in range(rng.choice([1, 2, 3]))}
+    if rng.random() < 0.2 and cops and not case.get("fault"):
+        case["eio"] = {str(rng.randrange(len(cops))): rng.choice([1, 1, 2, 3, 5, 8]) for _ in range(rng.choice([2, 3, 5]))}
+        case["eio_kind"] = rng.choice(["eio", "eio", "eio_partial", "short_meta", "short_meta"])
     return case
 
 
@@ -664,15 +665,27 @@ def run_case(case: dict) -> RunResult:
                 break
             arm = (case.get("eio") or {}).get(str(op_no))
             got = None
-            for attempt in ((arm, None) if arm else (None,)):
-                fired0 = world.faults_fired["eio_on_read"]
+            warm_reads = []
+            # with a fault: first the request without one (buffers and caches of every layer are warm and positioned), then with the
+            # fault armed, then once more without
+            for attempt_no, attempt in enumerate((None, arm, None) if arm else (None,)):
+                fired0 = world.io_faults_fired()
+                reads0 = [h.reads for _, h in world.handles]
                 if attempt:
-                    # fault-injecting configuration: a transient I/O error on the k-th read call from now on, on whichever handle
-                    # of the chain (child, ancestors, extents) makes it. The request may fail; it is then repeated without a fault.
-                    for _, h in world.handles:
-                        if not h.closed:
-                            h.eio_at = h.reads + attempt
-                    log.add("injector", "arm-eio", attempt, None)
+                    # fault-injecting configuration: a transient I/O fault inside this request. The warm attempt showed which
+                    # handles (child, ancestors, extents, data files) the request reads from and how often: the fault is put on
+                    # one of those (handle, n-th read) pairs, picked by the case, so that ancestors are hit as often as the top
+                    # layer. The request may fail; it is then repeated without a fault.
+                    pairs = [(hi, j) for hi, n_reads in enumerate(warm_reads) for j in range(1, min(n_reads, 6) + 1)]
+                    # a fault on a later read of a multi-read request leaves more in-flight state behind than one on the first
+                    pairs += [pr for pr in pairs if pr[1] >= 2] * 2
+                    if pairs:
+                        hi, j = pairs[(attempt * 7919 + case["seed"]) % len(pairs)]
+                        h = world.handles[hi][1]
+                        h.eio_at, h.fault_kind = h.reads + j, case.get("eio_kind", "eio")
+                        log.add("injector", "arm-" + case.get("eio_kind", "eio"), [hi, j], None)
+                    else:
+                        world.arm_io_fault(attempt, case.get("eio_kind", "eio"))
                 try:
                     with metered(STEP_LIMIT, "loop", world.step_allowance(STEP_LIMIT, 2.0, 1 << 23)):
                         if op[0] == "r":
@@ -682,15 +695,25 @@ def run_case(case: dict) -> RunResult:
                         else:
                             off, ln = op[2] * sector, op[3] * sector
                             got = rs_fn(s, op[2], op[3])
-                    for _, h in world.handles:
-                        h.eio_at = None
+                    world.disarm_io_faults()
+                    if arm and attempt_no == 0:
+                        warm_reads = [h.reads - (reads0[i] if i < len(reads0) else 0) for i, (_, h) in enumerate(world.handles)]
+                    if arm and attempt_no < 2:
+                        want0 = view.expected(off, ln)
+                        if got != want0:
+                            i = first_mismatch(got, want0) if len(got) == len(want0) else -1
+                            viol = v("mismatch" if i >= 0 else "short", f"{op} ({'before' if attempt_no == 0 else 'while'} an injected {case.get('eio_kind', 'eio')}): "
+                                                                        f"returned bytes differ from the view's content" + (f" at +{i}" if i >= 0 else f" in length ({len(got)} vs {len(want0)})"))
+                            break
+                        continue
                     break
                 except BudgetExceeded:
                     viol = v("budget", f"{op} did not finish within the step budget")
                     break
                 except Exception as e:
-                    if world.faults_fired["eio_on_read"] > fired0:
-                        world.probes["chain.request_failed_on_injected_eio"] += 1
+                    if world.io_faults_fired() > fired0:
+                        world.disarm_io_faults()
+                        world.probes["chain.request_failed_on_injected_io_fault"] += 1
                         log.add("client", op[0], op[1:], "raised-on-eio:" + type(e).__name__)
                         continue
                     tb = traceback.extract_tb(e.__traceback__)[-1]
